@@ -961,7 +961,19 @@ async fn lifetime(shared: Shared, local_pk: secp256k1::PublicKey, rng: &mut Rng,
                             Step::Reply(id) | Step::Apply(id, _) | Step::Fault(id, _) => w.calls.iter().find(|c| c.id == *id).and_then(|c| c.hidx),
                             _ => None,
                         };
-                        let same = h2.is_some() && h2 == w.htlcs[*u].hidx;
+                        let mut same = h2.is_some() && h2 == w.htlcs[*u].hidx;
+                        if let (true, Step::Deliver(v)) = (same, &s2) {
+                            // two parts that agree with each other and with their set, neither
+                            // rejecting it: the reference model does not depend on their order
+                            let agree = match (&w.htlcs[*u].spec.label, &w.htlcs[*v].spec.label) {
+                                (RefLabel::Tramp { amount_msat: a, bolt11: b, .. }, RefLabel::Tramp { amount_msat: a2, bolt11: b2, .. }) => a == a2 && b == b2,
+                                _ => false,
+                            };
+                            if agree && monitors::commuting_part(&w, *u) && monitors::commuting_part(&w, *v) {
+                                same = false;
+                                w.stats.eval("PREEMPT-commuting", left as u64);
+                            }
+                        }
                         let kind = match &s2 { Step::Deliver(_) => 0u64, Step::Reply(_) => 1, Step::Apply(..) => 2, _ => 3 };
                         w.stats.eval("PREEMPT", kind | ((left as u64) << 2) | ((same as u64) << 5));
                         w.ev(|| format!("TOGETHER with the next delivery (suspended at await {left}; same hash: {same}): {s2:?}"));
